@@ -64,6 +64,8 @@ func hashModeOf(s string) simrt.HashMode {
 		return simrt.HashNative
 	case "collide":
 		return simrt.HashCollide
+	case "split":
+		return simrt.HashSplit
 	}
 	return simrt.HashDet
 }
@@ -91,7 +93,7 @@ func (r *SeqResult) add(rule string, f string, a ...interface{}) {
 // RunSeq executes a sequential scenario.
 func RunSeq(sc *SeqScenario) *SeqResult {
 	res := &SeqResult{Probes: map[string]int{}}
-	sim := simrt.New(simrt.Config{Seed: sc.SchedSeed, Strategy: simrt.StrategyConfig{Kind: "random"}, Epoch: sc.Epoch, StepBudget: 3000000, Replay: sc.Replay})
+	sim := simrt.New(simrt.Config{Seed: sc.SchedSeed, Strategy: simrt.StrategyConfig{Kind: "random"}, Epoch: sc.Epoch, StepBudget: 800000000, Replay: sc.Replay}) // watchdog only
 	defer sim.Close()
 	defer bridge.SetMinTableLen(32)
 	cacheFam := sc.Family == "cache"
@@ -289,6 +291,7 @@ func RunSeq(sc *SeqScenario) *SeqResult {
 // checkMapSeq compares a sequential Map/MapOf run with a builtin map.
 func (res *SeqResult) checkMapSeq(recs []*Rec, tag string) {
 	ref := map[int]int64{}
+	tree := buildTree(recs)
 	var check func(r *Rec)
 	check = func(r *Rec) {
 		op := r.Op
@@ -297,7 +300,7 @@ func (res *SeqResult) checkMapSeq(recs []*Rec, tag string) {
 		bad := func(f string, a ...interface{}) {
 			res.add("model", "%s: %s: %s", tag, fmt.Sprintf(f, a...), r)
 		}
-		kids := children(recs, r)
+		kids := tree.kids[r]
 		switch op.K {
 		case MLoad:
 			if r.Ok != present || r.Val != cur {
@@ -378,7 +381,7 @@ func (res *SeqResult) checkMapSeq(recs []*Rec, tag string) {
 			for _, q := range kids {
 				check(q)
 			}
-			wrote, removed := effectsInside(recs, r, before)
+			wrote, removed := effectsInside(tree.descendants(r, nil), before)
 			seen := map[int]bool{}
 			for _, kv := range r.Visits {
 				if seen[kv.K] {
@@ -414,17 +417,8 @@ func (res *SeqResult) checkMapSeq(recs []*Rec, tag string) {
 			check(q)
 		}
 	}
-	for _, r := range recs {
-		top := true
-		for _, p := range recs {
-			if p != r && r.Call > p.Call && r.Ret < p.Ret && p.Ret != 0 {
-				top = false
-				break
-			}
-		}
-		if top {
-			check(r)
-		}
+	for _, r := range tree.tops {
+		check(r)
 	}
 }
 
